@@ -44,9 +44,11 @@ Definition conflicting (a1 a2 : access) : Prop :=
   a_var a1 = a_var a2 /\ (is_write a1 = true \/ is_write a2 = true)
   /\ a_init a1 = false /\ a_init a2 = false.
 
+(* `if` instead of && where it matters: vm_compute evaluates both arguments of andb *)
 Definition conflictingb (a1 a2 : access) : bool :=
-  (a_var a1 =? a_var a2) && (is_write a1 || is_write a2)
-  && negb (a_init a1) && negb (a_init a2).
+  if a_var a1 =? a_var a2
+  then (is_write a1 || is_write a2) && negb (a_init a1) && negb (a_init a2)
+  else false.
 
 (* Eraser discipline: a common lock (exclusive on the writing side) or both synchronised objects *)
 Definition protected (a1 a2 : access) : Prop :=
@@ -74,7 +76,7 @@ Definition discipline (L : listing) (T : list access) : Prop :=
   forall a1 a2, In a1 T -> In a2 T -> conflicting a1 a2 -> ~ exempt L a1 a2 -> protected a1 a2.
 
 Definition pair_okb (L : listing) (a1 a2 : access) : bool :=
-  implb (conflictingb a1 a2 && negb (exemptb L a1 a2)) (protectedb a1 a2).
+  if conflictingb a1 a2 then (if exemptb L a1 a2 then true else protectedb a1 a2) else true.
 
 Definition check (L : listing) (T : list access) : bool :=
   forallb (fun a1 => forallb (pair_okb L a1) T) T.
@@ -100,9 +102,14 @@ Definition violates (T : list access) (v f1 f2 : string) : Prop :=
                 /\ conflicting a1 a2 /\ ~ protected a1 a2.
 
 Definition violatesb (T : list access) (v f1 f2 : string) : bool :=
-  existsb (fun a1 => existsb (fun a2 =>
-     (a_var a1 =? v) && (a_func a1 =? f1) && (a_func a2 =? f2)
-     && conflictingb a1 a2 && negb (protectedb a1 a2)) T) T.
+  existsb (fun a1 =>
+     if a_var a1 =? v then
+       if a_func a1 =? f1 then
+         existsb (fun a2 => if a_func a2 =? f2
+                            then (if conflictingb a1 a2 then negb (protectedb a1 a2) else false)
+                            else false) T
+       else false
+     else false) T.
 
 Definition all_listed_violate (L : listing) (T : list access) : bool :=
   forallb (fun x => violatesb T (fst (fst x)) (snd (fst x)) (snd x)) L.
